@@ -53,7 +53,7 @@ LANES = {
 }
 
 WRAPS = ("socket bind listen accept accept4 getpeername shutdown getsockname setsockopt fcntl fcntl64 read writev write send recv readv close open "
-         "unlink daemon epoll_create epoll_ctl epoll_wait timerfd_create timerfd_settime signal "
+         "unlink fsync rename daemon epoll_create epoll_ctl epoll_wait timerfd_create timerfd_settime signal "
          "syslog buffered_socket_writev parse_message cjet_malloc cjet_calloc "
          "init_http_connection crypt").split()
 
